@@ -171,10 +171,7 @@ func checkC02(c *Ctx) {
 		primSet("psTypeVarGen", "psNewTypeVar", "tvgen2ftvgen", "tvcToTypeVarGen", "tdctxTVFAlloc", "unifyType", "unifyTupArg", "compositeTp", "compositeTpList", "InferExpr", "InferLfd", "updateResolver", "updateResolverD", "updateResOne",
 			"collectTVarFType", "collectTVarFTypeWithSet", "transTVFType", "transTVFTypeWithSet", "resolveOneTypeVar", "resolveType", "resolveExprType", "GenFunc", "GenFuncVar", "GenRecordType", "GenRecordTypeByTgen", "GenUnionType", "tpreplace", "hoistTVar", "New_FType_FTypeVar"), 40)
 	// (b)
-	tv := newTravAn(c, f)
-	tv.checkTraversal("C02.b", "collectExprRel", []string{"collectBlock", "collectStmtRel", "collectSlice"}, 6)
-	tv.checkTraversal("C02.b", "collectTVarExpr", []string{"collectTVarBlock", "collectTVarStmt"}, 6)
-	tv.checkTraversal("C02.b", "transExpr", []string{"transBlock", "transStmt", "transExprNE"}, 6)
+	checkTraversals(c, f, "C02.b")
 	// (c)
 	c.checkPins(f, "C02.c", c02Pins)
 	// (h)
@@ -196,4 +193,13 @@ func checkC02(c *Ctx) {
 	} else {
 		r.Undecided("C02.d", "parseLetFuncDef", "definition", "fc", "anchor function not found")
 	}
+}
+
+// checkTraversals: TRAV on the three whole-AST passes (constraint collection, type-variable collection, the generic
+// transformer that applies the solved types): every Expr-bearing component of every node is visited on every path.
+func checkTraversals(c *Ctx, f *FC, rule string) {
+	tv := newTravAn(c, f)
+	tv.checkTraversal(rule, "collectExprRel", []string{"collectBlock", "collectStmtRel", "collectSlice"}, 6)
+	tv.checkTraversal(rule, "collectTVarExpr", []string{"collectTVarBlock", "collectTVarStmt"}, 6)
+	tv.checkTraversal(rule, "transExpr", []string{"transBlock", "transStmt", "transExprNE"}, 6)
 }
